@@ -151,8 +151,12 @@ BuilderOK(e) ==
           \/ nearHigh /\ e.out = q + 1 /\ q < n
 FromBuilderOK(e) == e.o = e.c                              \* decode builders store the curve's value, exactly
 
+\* icc.Version: major, then the two BCD nibbles of the minor / bug-fix byte (ICC.1:2010 7.2.4)
+VersionOK(e) == e.str = ToString(e.major) \o "." \o ToString(e.minor \div 16) \o "." \o ToString(e.minor % 16)
+
 ExtraOK(e) ==
     CASE e.kind = "mdops" -> MetaDataOK(e)
+      [] e.kind = "version" -> VersionOK(e)
       [] e.kind = "enum" -> EnumOK(e)
       [] e.kind = "luminance" -> LuminanceOK(e)
       [] e.kind = "dot" -> DotOK(e)
